@@ -1746,14 +1746,16 @@ func findRequiredLandmarkChainLeftToRight(r *Runner, chain *syntax.RequiredLandm
 			return false
 		}
 
-		nextStart := first.End
+		// Later landmarks may begin as soon as this one has consumed its minimum;
+		// continuing after its greedy end could step over a rune they need.
+		nextStart := requiredLandmarkMinEnd(r.Runtext, r.Runtextend, first, chain.Landmarks[0])
 		for i := 1; i < len(chain.Landmarks); i++ {
 			landmark, ok := findNextRequiredLandmarkRunes(r.Runtext, nextStart, r.Runtextend, chain.Landmarks[i])
 			if !ok {
 				r.Runtextpos = r.Runtextend
 				return false
 			}
-			nextStart = landmark.End
+			nextStart = requiredLandmarkMinEnd(r.Runtext, r.Runtextend, landmark, chain.Landmarks[i])
 		}
 
 		candidate := first.Start
@@ -1779,6 +1781,23 @@ type requiredLandmarkMatch struct {
 	Start     int
 	CoreStart int
 	End       int
+}
+
+// requiredLandmarkMinEnd returns the earliest position at which the landmark
+// found at m.CoreStart can end: a set alternative may stop after its minimum repeat.
+func requiredLandmarkMinEnd(input []rune, endAt int, m requiredLandmarkMatch, landmark syntax.RequiredLandmark) int {
+	minEnd := m.End
+	for _, alt := range landmark.Alternatives {
+		if len(alt.Literal) > 0 || alt.Set == nil {
+			continue
+		}
+		if _, ok := requiredLandmarkAlternativeMatch(input, m.CoreStart, endAt, alt); ok {
+			if e := m.CoreStart + alt.MinRepeat; e < minEnd {
+				minEnd = e
+			}
+		}
+	}
+	return minEnd
 }
 
 func findNextRequiredLandmarkRunes(input []rune, startAt, endAt int, landmark syntax.RequiredLandmark) (requiredLandmarkMatch, bool) {
